@@ -205,51 +205,11 @@ pub fn foreign_all(cx: &RunCtx, kinds: &[Kind]) {
     foreign_dom::<Num>(cx, kinds);
 }
 
-/// Runs of adjacent prefix signs: every word over {-, +} of 1..=`max` signs in front of every edge operand (the
-/// placeholder over the critical pool, the ends of the range as bracketed texts, literals), alone and inside the
-/// contexts that bind tighter or looser than a prefix sign. Each sign is its own operation: `--x` is -(-x), so an
+/// Runs of adjacent prefix signs (refmodel::families::sign_runs): each sign is its own operation, `--x` is -(-x), so an
 /// inner minus that overflows (or changes the variant, or the sign of a zero) must not be cancelled against the outer one.
 pub fn sign_runs<D: Dom>(cx: &RunCtx, kinds: &[Kind]) {
     let max = if cx.tier == crate::Tier::Quick { 4 } else { 7 };
-    let mut runs: Vec<String> = vec![String::new()];
-    let mut all: Vec<String> = Vec::new();
-    for _ in 0..max {
-        let mut next = Vec::new();
-        for r in &runs {
-            for c in ['-', '+'] {
-                next.push(format!("{}{}", r, c));
-            }
-        }
-        all.extend(next.iter().cloned());
-        runs = next;
-    }
-    let mut operands: Vec<String> = vec!["@".into(), "(@)".into(), "0".into(), "1".into(), "7".into(), "(0)".into(), "(1-1)".into(), "(0*-1)".into()];
-    match D::EV {
-        Ev::I64 => operands.extend(["9223372036854775807", "(-9223372036854775807-1)", "(-9223372036854775807)", "abs(9223372036854775807)"].map(String::from)),
-        Ev::Num => operands.extend(["9223372036854775807", "(-9223372036854775807-1)", "(-9223372036854775807)", "9223372036854775808", "2.5", "(0/1)", "(0.0)"].map(String::from)),
-        Ev::Dec => operands.extend(["79228162514264337593543950335", "(-79228162514264337593543950335)", "0.0", "2.50", "(0.00*-1)"].map(String::from)),
-        _ => operands.extend(["0.0", "2.5", "(1/0)", "(0/0)", "(-0.0)", "1e308"].map(String::from)),
-    }
-    if D::EV == Ev::Cpx {
-        operands.extend(["i", "(0*i)", "(2+3i)"].map(String::from));
-    }
-    let mut inputs: Vec<String> = Vec::new();
-    for r in &all {
-        for x in &operands {
-            inputs.push(format!("{}{}", r, x));
-            inputs.push(format!("2*{}{}", r, x));
-            inputs.push(format!("1-{}{}", r, x));
-            inputs.push(format!("1+{}{}", r, x));
-            inputs.push(format!("{}{}^2", r, x));
-            inputs.push(format!("{}{}²", r, x));
-            inputs.push(format!("2^{}{}", r, x));
-            inputs.push(format!("abs({}{})", r, x));
-            inputs.push(format!("1/{}{}", r, x));
-            inputs.push(format!("({}{})", r, x));
-            inputs.push(format!("{}{}*1", r, x));
-            inputs.push(format!("{}{}-1", r, x));
-        }
-    }
+    let inputs = refmodel::families::sign_runs(D::EV, max);
     run_list::<D>(cx, "E-FAM runs of prefix signs x edge operands", &inputs, &D::pool_critical(), kinds);
 }
 
